@@ -250,6 +250,10 @@ struct Outcome {
     readers: Vec<ReaderLog>,
     healed_at: i64,
     end_at: i64,
+    /// no new sample for 30 s (virtual) after healing although samples were outstanding
+    stuck: bool,
+    /// resource cap hit while samples were still trickling in
+    storm: bool,
 }
 
 async fn scenario(w: World, p: Params) -> Outcome {
@@ -305,6 +309,8 @@ async fn scenario(w: World, p: Params) -> Outcome {
         readers: Vec::new(),
         healed_at: 0,
         end_at: 0,
+        stuck: false,
+        storm: false,
     };
     if !matched {
         return out;
@@ -384,15 +390,22 @@ async fn scenario(w: World, p: Params) -> Outcome {
         sim.sleep(until - now).await;
     }
     out.healed_at = sim.now();
-    // bounded progress: H = 30 s of virtual time after healing
+    // Bounded progress: after healing, the run ends when everything expected was presented
+    // (held), or when NO new sample has been presented for 30 s of virtual time although samples
+    // are outstanding (stuck => violation), or when a resource cap is hit while samples still
+    // trickle in (message storm: no verdict).
     let expected: Vec<BTreeSet<u32>> = out
         .writers
         .iter()
         .map(|wl| expected_set(wl, p.keep_last))
         .collect();
-    let deadline = sim.now() + 30 * SEC;
+    let hard_deadline = sim.now() + 300 * SEC;
+    let datagram_cap = w.net.counters().submitted + 600_000;
+    let mut last_progress = sim.now();
+    let mut last_count = usize::MAX;
     loop {
         let mut complete = true;
+        let mut count = 0usize;
         if reliable_mode {
             for rl in &rlogs {
                 let got: BTreeSet<(u32, u32)> = rl
@@ -401,6 +414,7 @@ async fn scenario(w: World, p: Params) -> Outcome {
                     .iter()
                     .flat_map(|t| t.2.iter().map(|s| (s.0, s.1)))
                     .collect();
+                count += got.len();
                 for (wi, e) in expected.iter().enumerate() {
                     if e.iter().any(|s| !got.contains(&(wi as u32, *s))) {
                         complete = false;
@@ -411,7 +425,19 @@ async fn scenario(w: World, p: Params) -> Outcome {
             // nothing to wait for except in-flight datagrams; give duplicates/delays time to land
             complete = sim.now() > out.healed_at + 3 * SEC;
         }
-        if complete || sim.now() > deadline {
+        if count != last_count {
+            last_count = count;
+            last_progress = sim.now();
+        }
+        if complete {
+            break;
+        }
+        if sim.now() - last_progress > 30 * SEC {
+            out.stuck = true;
+            break;
+        }
+        if sim.now() > hard_deadline || w.net.counters().submitted > datagram_cap {
+            out.storm = true;
             break;
         }
         sim.sleep(100 * MS).await;
@@ -496,7 +522,9 @@ pub fn run_into(shard: &Shard, rep: &mut Report, mode: Mode, cases: Vec<u64>) {
                 *h.entry(format!("{}:{}", r.src, k)).or_default() += 1;
             }
             eprintln!("  stop={:?} polls={} wpolls={} end={}ms sent={:?}", stats.stop, stats.polls, stats.worker_polls, (stats.end_ns - EPOCH_NS) / MS, h);
-            for r in log.iter().rev().take(12).rev() {
+            eprintln!("  counters={:?}", net.counters());
+            let tail = shard.args.u64("tail", 12) as usize;
+            for r in log.iter().rev().take(tail).rev() {
                 eprintln!("   {}us {}->{:?} {}", (r.at_ns - EPOCH_NS) / 1000, r.src, r.dsts, r.summary);
             }
         }
@@ -656,14 +684,23 @@ fn evaluate(
             if reliable_mode {
                 let exp = expected_set(&o.writers[wi as usize], p.keep_last);
                 let missing: Vec<u32> = exp.iter().filter(|s| !seen.contains(s)).cloned().collect();
-                if !missing.is_empty() {
+                if !missing.is_empty() && !o.stuck {
+                    // resource cap hit while samples were still being presented (retransmission
+                    // storm): neither held nor refuted
+                    rep.stat("cases_unfinished_storm(no verdict)", 1);
+                } else if !missing.is_empty() && c.rx_overflow > 0 {
+                    // The simulated receive queue overflowed (message storm): datagrams were lost
+                    // after the healing point by the harness' own network model, so the premise
+                    // "the network eventually delivers" does not hold for this run.
+                    rep.stat("cases_incomplete_but_rx_queue_overflowed(no verdict)", 1);
+                } else if !missing.is_empty() {
                     let first = missing[0];
                     let (_, len, _) = written[&first];
                     let first_frag = len + 20 > p.frag;
                     rep.violation(
                         format!("incomplete|{feat}|first_missing_fragmented={}", yn(first_frag)),
                         format!(
-                            "reader {ri}: {} of {} samples writer {wi} still holds were not presented within 30 s (virtual) after the network healed; first missing #{first} (payload {len} B, fragment size {})",
+                            "reader {ri}: {} of {} samples writer {wi} still holds were not presented and no further sample arrived for 30 s (virtual) after the network healed; first missing #{first} (payload {len} B, fragment size {})",
                             missing.len(), exp.len(), p.frag
                         ),
                         replay
@@ -693,6 +730,11 @@ fn evaluate(
         o.writers.iter().map(|w| w.writes.iter().filter(|x| x.3.is_err()).count()).sum::<usize>() as i128,
     );
     rep.stat("samples_presented", presented_total as i128);
+    rep.stat("rx_queue_overflow_drops", c.rx_overflow as i128);
+    rep.maxstat("max_rx_queue", c.max_rxq as i128);
+    if c.rx_overflow > 0 {
+        rep.stat("cases_with_rx_queue_overflow", 1);
+    }
     rep.stat("takes_with_data", o.readers.iter().map(|r| r.takes.len()).sum::<usize>() as i128);
     if case < 64 {
         rep.sample(
